@@ -29,8 +29,9 @@
    * error values carry no "chunk:line:" position prefix; messages follow lvm.c/ldebug.c without
      the variable-name part ("attempt to call a nil value").
    * `tostring` of tables/functions prints a store index, not an address.
-   * no string metatable except indexing a string into the `string` table; no `__len`, `__gc`,
-     `__mode`, `__metatable` is honoured by getmetatable only; no coroutines, `load*`, `require`, io, os.
+   * no string metatable except indexing a string into the `string` table (getmetatable("")
+     is nil); no `__len`, `__gc`, `__mode`; `print` converts with the builtin tostring even if
+     the global `tostring` was reassigned; no coroutines, `load*`, `require`, io, os, `math.huge`.
    * `goto` may target any label of an enclosing block of the same function activation, or a label
      later in the same block (LuaWf checks the stricter LuaJIT rules statically). *)
 From Coq Require Import String Ascii List NArith ZArith QArith Bool.
@@ -624,6 +625,8 @@ Definition pure_builtin (b : builtin) (args : list value) (st : state) : res (li
   | BSetmetatable =>
       do* id, st1 <- tab_arg 0 "setmetatable" args st;
       let t := get_table st1 id in
+      if negb (is_nil (metamethod st1 (VTable id) "__metatable"))
+      then err "cannot change a protected metatable" st1 else
       match arg 1 args with
       | VNil => ROk [VTable id] (put_table st1 id (mkTable (t_arr t) (t_asize t) (t_hash t) None))
       | VTable m => ROk [VTable id] (put_table st1 id (mkTable (t_arr t) (t_asize t) (t_hash t) (Some m)))
